@@ -12,7 +12,8 @@ def write_project(d, files):
         p = os.path.join(d, path)
         os.makedirs(os.path.dirname(p), exist_ok=True)
         with open(p, "w") as f:
-            f.write("\n---\n".join(json.dumps(doc, ensure_ascii=False) for doc in docs))
+            # "@ROOT@" in a file stands for the absolute path of the project directory (absolute includes)
+            f.write("\n---\n".join(json.dumps(doc, ensure_ascii=False) for doc in docs).replace("@ROOT@", os.path.realpath(d)))
             f.write("\n")
 
 
